@@ -53,7 +53,18 @@ func main() {
 		fmt.Fprintln(os.Stderr, "unknown family", fam)
 		os.Exit(2)
 	}
-	if err := f(o); err != nil {
+	// everything this run and the plugins it launches put into the temp directory (socket files of plugins that were
+	// killed or made to crash, runner directories) goes into one private directory that is removed at the end
+	cleanup := func() {}
+	if !o.child {
+		if d, err := os.MkdirTemp("", "hx-run-"); err == nil {
+			os.Setenv("TMPDIR", d)
+			cleanup = func() { os.RemoveAll(d) }
+		}
+	}
+	err := f(o)
+	cleanup()
+	if err != nil {
 		fmt.Fprintln(os.Stderr, "hx:", err)
 		os.Exit(3)
 	}
